@@ -426,7 +426,7 @@ impl Exec {
                     return Ok(());
                 }
                 let max = self.objs[*obj].snap.units.first().and_then(|u| u.leaf.as_ref()).map(|l| l.max_size).unwrap_or(0);
-                if (*s as u64) <= max && *s >= 1 {
+                if (*s as u64) <= max {
                     let st = &mut self.objs[*obj];
                     let r = catch(|| st.obj.set_size(*s));
                     if let Err(p) = r {
@@ -438,6 +438,17 @@ impl Exec {
             }
             Op::Realloc { obj, s } => {
                 if *obj >= self.objs.len() || *s < 1 || *s > 8 {
+                    return Ok(());
+                }
+                // reallocation multiplies whatever n and cols the object holds: after an accepted header with a
+                // zero limb count they may be huge (byte invariant still true); that is not a serialisation matter
+                let plausible = self.objs[*obj]
+                    .snap
+                    .units
+                    .first()
+                    .and_then(|u| u.leaf.as_ref())
+                    .is_some_and(|l| (l.n as u128) * (l.cols as u128) * (*s as u128) * 8 <= 1 << 24);
+                if !plausible {
                     return Ok(());
                 }
                 let st = &mut self.objs[*obj];
@@ -891,10 +902,11 @@ pub fn craft(p: &Parse, bytes: &[u8], seed: u64, shrink: u32) -> Vec<u8> {
         vec_units.reverse();
         for u in vec_units {
             let l = u.leaf.as_ref().unwrap();
-            if l.size <= 1 {
+            if l.size == 0 || (l.size <= 1 && shrink != 255) {
                 continue;
             }
-            let ns = l.size.saturating_sub(shrink as u64).max(1);
+            // shrink = 255: a sender whose active size was set to zero (legal: set_size(0))
+            let ns = if shrink == 255 { 0 } else { l.size.saturating_sub(shrink as u64).max(1) };
             let nlen = l.n * l.cols * ns * 8;
             // fields: n cols size max_size len are the 40 bytes before payload_off
             let size_off = l.payload_off - 24;
